@@ -165,9 +165,12 @@ def check_mapper_constructors(fx, rep, rule):
         v = res[0][1][1] if len(res) == 1 else None
         tuple_variant = "bool" in (fx.bodies[p].get("inputs") or [""])[0]
         txt = S.tstr(v) if v else "-"
+        # the single parameter may be bound to a name or destructured in the parameter pattern (`(mapping, flag): (&str, bool)`)
+        pat0 = fx.bodies[p]["params"][0].get("pat") or {}
+        pname0 = pat0.get("name", "arg0") if pat0.get("k") == "Bind" else "arg0"
         if tuple_variant:
-            good = v is not None and v[0] == "call" and v[1].endswith("new_with_param_mapping") and v[2][1] == mk_field(("in", fx.bodies[p]["params"][0]["pat"]["name"]), "1") \
-                and "ProguardMapping::new" in repr(v[2][0]) and repr(mk_field(("in", fx.bodies[p]["params"][0]["pat"]["name"]), "0")) in repr(v[2][0])
+            good = v is not None and v[0] == "call" and v[1].endswith("new_with_param_mapping") and v[2][1] == mk_field(("in", pname0), "1") \
+                and "ProguardMapping::new" in repr(v[2][0]) and repr(mk_field(("in", pname0), "0")) in repr(v[2][0])
         else:
             good = v is not None and v[0] == "call" and v[1].endswith("ProguardMapper::new") and "ProguardMapping::new" in repr(v[2][0])
         rep.check(rule, "%s/mapper-constructor/from%s" % (rule, "-tuple" if tuple_variant else "-str"), good, loc=F.short_file(fx.bodies[p]["sp"]), found=txt,
